@@ -26,6 +26,8 @@ rc, out = sh(f"git apply {patch}", cwd=WT)
 if rc != 0:
     print("patch does not apply:", out); sys.exit(2)
 crate = "amf0" if "amf0/src" in open(patch).read() and "rtmp/src" not in open(patch).read() else "rtmp"
+if "rml_rtmp" in open(demo).read():
+    crate = "rtmp"      # the demonstration drives the rtmp crate even though the change is in amf0
 rc, out = sh("cargo test --workspace --offline 2>&1 | grep 'test result'", cwd=WT)
 fails = [l for l in out.split("\n") if "test result" in l and " 0 failed" not in l]
 meta["suite_with_patch"] = "passes" if not fails and "test result" in out else "FAILS: " + "; ".join(fails)
@@ -50,7 +52,8 @@ if confirmed:
     try:
         for pid in pids:
             t = time.time()
-            rc, out = sh(f"python3 tools/check.py {pid} --tier quick", cwd=VERIF, timeout=3600, e=dict(os.environ))
+            rc, out = sh(f"python3 tools/check.py {pid} --tier quick", cwd=VERIF, timeout=3600,
+                         e=dict(os.environ, VERIF_EVIDENCE_DIR=os.path.join(VERIF, "build", "evidence-seeded")))
             v = [l for l in out.split("\n") if l.startswith("VIOLATION")]
             results[pid] = {"exit": rc, "violation_lines": v[:3], "wall_s": round(time.time() - t, 1)}
             rep = None
